@@ -414,19 +414,26 @@ macro_rules! interp {
                         (exec(0, || { let t = regs[r].split_off(arg(2)); regs[q] = t; }),
                          exec(1, || { let t = mirs[r].split_off(arg(2)); mirs[q] = t; })) }
                     "retain" => { let r = reg(w[1]); let (mut ca, mut cb) = (Cb::new(&w), Cb::new(&w));
-                        let a = exec(0, || { regs[r].retain(|e| { let mut o = vec![]; <T as Shape>::rids(&e, &mut o); ca.call(o) }); });
+                        // every element reference handed to the callback must lie inside its field array (checked before it is read)
+                        let mut pspans = vec![]; <T as Shape>::vspans(&regs[r], &mut pspans); let mut oob = false;
+                        let a = exec(0, || { regs[r].retain(|e| { let mut ad = vec![]; <T as Shape>::raddrs(&e, &mut ad);
+                            if !within(&pspans, &ref_spans::<T>(&ad, &pspans)) { oob = true; return ca.call(vec![]); }
+                            let mut o = vec![]; <T as Shape>::rids(&e, &mut o); ca.call(o) }); });
                         let b = exec(1, || { mirs[r].retain(|e| { let mut o = vec![]; e.ids(&mut o); cb.call(o) }); });
-                        (format!("{} vis={}", a, fmt_cols(&ca.visits)), format!("{} vis={}", b, fmt_cols(&cb.visits))) }
+                        (format!("{}{} vis={}", a, if oob { " inb=false" } else { "" }, fmt_cols(&ca.visits)), format!("{} vis={}", b, fmt_cols(&cb.visits))) }
                     "retain_mut" => { let r = reg(w[1]); let (mut ca, mut cb) = (Cb::new(&w), Cb::new(&w));
                         let wl: Option<i64> = kv(&w, "wleaf").map(|x| x.parse().unwrap());
                         let wt: u32 = kv(&w, "wtag").map(|x| x.parse().unwrap()).unwrap_or(0);
-                        let a = exec(0, || { regs[r].retain_mut(|mut e| { let mut o = vec![]; <T as Shape>::rmids(&e, &mut o);
+                        let mut pspans = vec![]; <T as Shape>::vspans(&regs[r], &mut pspans); let mut oob = false;
+                        let a = exec(0, || { regs[r].retain_mut(|mut e| { let mut ad = vec![]; <T as Shape>::rmaddrs(&e, &mut ad);
+                            if !within(&pspans, &ref_spans::<T>(&ad, &pspans)) { oob = true; return ca.call(vec![]); }
+                            let mut o = vec![]; <T as Shape>::rmids(&e, &mut o);
                             if let Some(l) = wl { let mut j = l; <T as Shape>::rm_write(&mut e, &mut j, ((wt + ca.k as u32) % 32) * 8 + l as u32); }
                             ca.call(o) }); });
                         let b = exec(1, || { mirs[r].retain_mut(|e| { let mut o = vec![]; e.ids(&mut o);
                             if let Some(l) = wl { let mut j = l; <T as Shape>::own_write(e, &mut j, ((wt + cb.k as u32) % 32) * 8 + l as u32); }
                             cb.call(o) }); });
-                        (format!("{} vis={}", a, fmt_cols(&ca.visits)), format!("{} vis={}", b, fmt_cols(&cb.visits))) }
+                        (format!("{}{} vis={}", a, if oob { " inb=false" } else { "" }, fmt_cols(&ca.visits)), format!("{} vis={}", b, fmt_cols(&cb.visits))) }
                     "extend" => { let r = reg(w[1]); let tags = parse_list(w[2]);
                         let ea: Vec<T> = tags.iter().map(|t| mk(0, *t)).collect(); let eb: Vec<T> = tags.iter().map(|t| mk(1, *t)).collect();
                         (exec(0, || { regs[r].extend(ea); }), exec(1, || { mirs[r].extend(eb); })) }
@@ -835,6 +842,7 @@ interp!(run_two, Two, TwoVec, TwoSlice, TwoSliceMut, TwoRef, TwoRefMut, TwoPtr, 
 interp!(run_flat4, Flat4, Flat4Vec, Flat4Slice, Flat4SliceMut, Flat4Ref, Flat4RefMut, Flat4Ptr, Flat4PtrMut, Flat4Iter, Flat4IterMut, yes);
 interp!(run_heap, Heap, HeapVec, HeapSlice, HeapSliceMut, HeapRef, HeapRefMut, HeapPtr, HeapPtrMut, HeapIter, HeapIterMut, yes);
 interp!(run_drh, DrH, DrHVec, DrHSlice, DrHSliceMut, DrHRef, DrHRefMut, DrHPtr, DrHPtrMut, DrHIter, DrHIterMut, yes);
+interp!(run_plc, PlC, PlCVec, PlCSlice, PlCSliceMut, PlCRef, PlCRefMut, PlCPtr, PlCPtrMut, PlCIter, PlCIterMut, yes);
 interp!(run_drp, DrP, DrPVec, DrPSlice, DrPSliceMut, DrPRef, DrPRefMut, DrPPtr, DrPPtrMut, DrPIter, DrPIterMut, yes);
 interp!(run_drn, DrN, DrNVec, DrNSlice, DrNSliceMut, DrNRef, DrNRefMut, DrNPtr, DrNPtrMut, DrNIter, DrNIterMut, yes);
 interp!(run_nfirst, NFirst, NFirstVec, NFirstSlice, NFirstSliceMut, NFirstRef, NFirstRefMut, NFirstPtr, NFirstPtrMut, NFirstIter, NFirstIterMut, yes);
@@ -850,16 +858,16 @@ pub fn shape_desc(name: &str) -> Option<String> {
     fn d<T: Shape>() -> String { let mut s = String::new(); T::desc(&mut s); format!("{} drops={} {}", T::NAME, T::DROPS as u8, s.trim()) }
     Some(match name {
         "One" => d::<One>(), "Two" => d::<Two>(), "Flat4" => d::<Flat4>(), "Heap" => d::<Heap>(),
-        "DrH" => d::<DrH>(), "DrN" => d::<DrN>(), "DrP" => d::<DrP>(), "NFirst" => d::<NFirst>(), "NFirstF" => d::<NFirstF>(),
+        "DrH" => d::<DrH>(), "DrN" => d::<DrN>(), "DrP" => d::<DrP>(), "PlC" => d::<PlC>(), "NFirst" => d::<NFirst>(), "NFirstF" => d::<NFirstF>(),
         "NMid" => d::<NMid>(), "NMidF" => d::<NMidF>(), "NLast" => d::<NLast>(), "NLastF" => d::<NLastF>(),
         "Deep" => d::<Deep>(), "DeepF" => d::<DeepF>(), _ => return None })
 }
-pub const SHAPES: &[&str] = &["One", "Two", "Flat4", "Heap", "DrH", "DrN", "DrP", "NFirst", "NFirstF", "NMid", "NMidF", "NLast", "NLastF", "Deep", "DeepF"];
+pub const SHAPES: &[&str] = &["One", "Two", "Flat4", "Heap", "DrH", "DrN", "DrP", "PlC", "NFirst", "NFirstF", "NMid", "NMidF", "NLast", "NLastF", "Deep", "DeepF"];
 
 pub fn run_shape(name: &str, lines: &[&str], out: &mut String) -> bool {
     match name {
         "One" => run_one(lines, out), "Two" => run_two(lines, out), "Flat4" => run_flat4(lines, out), "Heap" => run_heap(lines, out),
-        "DrH" => run_drh(lines, out), "DrN" => run_drn(lines, out), "DrP" => run_drp(lines, out), "NFirst" => run_nfirst(lines, out), "NFirstF" => run_nfirstf(lines, out),
+        "DrH" => run_drh(lines, out), "DrN" => run_drn(lines, out), "DrP" => run_drp(lines, out), "PlC" => run_plc(lines, out), "NFirst" => run_nfirst(lines, out), "NFirstF" => run_nfirstf(lines, out),
         "NMid" => run_nmid(lines, out), "NMidF" => run_nmidf(lines, out), "NLast" => run_nlast(lines, out), "NLastF" => run_nlastf(lines, out),
         "Deep" => run_deep(lines, out), "DeepF" => run_deepf(lines, out), _ => return false }
     true
